@@ -201,7 +201,7 @@ fn l2_rows() -> Vec<Vec<Cls>> {
 }
 
 fn callset(rows: &[Vec<Cls>], variant: usize) -> CallSet {
-    let mut cs = CallSet::new(3);
+    let mut cs = CallSet::new(rows.first().map_or(3, |r| r.len()));
     for (i, row) in rows.iter().enumerate() {
         let gts: Vec<&str> = row.iter().enumerate().map(|(j, c)| c.spell(i + j + variant)).collect();
         cs.push_gts(&gts);
@@ -402,6 +402,16 @@ pub fn run(tier: Tier) -> i32 {
             cj.push(CliJob { map: map.clone(), rows: rows.clone(), m: full.clone(), precision: p, individuals: false, what: "precision-sweep" });
         }
     }
+    // outputs of more than 1024 and more than 4096 entries (30 samples in 3 populations, 40 in 2)
+    for (n, pops, m) in [(30usize, 3usize, vec![10usize, 10, 8]), (70, 2, vec![66, 62]), (24, 1, vec![40])] {
+        let map: Vec<Option<usize>> = (0..n).map(|i| Some(i * pops / n)).collect();
+        let classes = [Cls::G0, Cls::G1, Cls::G2, Cls::G1, Cls::Missing, Cls::G0, Cls::Multi, Cls::G2];
+        let rows_big: Vec<Vec<Cls>> = (0..25usize)
+            .map(|r| (0..n).map(|j| { let c = classes[(j * (r + 3) + r) % classes.len()]; if (c == Cls::Missing || c == Cls::Multi) && (r + j) % 4 != 0 { Cls::G0 } else { c } }).collect())
+            .collect();
+        cj.push(CliJob { map: map.clone(), rows: rows_big.clone(), m: m.clone(), precision: 6, individuals: false, what: "large-output" });
+        cj.push(CliJob { map, rows: rows_big, m, precision: 6, individuals: true, what: "large-output" });
+    }
     let res = par_map(cj.len(), |i| eval_cli(&cj[i], &scratch));
     for v in res.into_iter().flatten() {
         rep.violation(v.0, v.1, v.2);
@@ -410,7 +420,7 @@ pub fn run(tier: Tier) -> i32 {
         name: "cli: sfs create --project-shape / -p".into(),
         evaluations: cj.len() as u64,
         nontrivial: cj.len() as u64,
-        note: "14 maps of 3 samples x every target vector; 12-record call set with missing/multiallelic patterns and single records; -p vs --project-shape byte identity; precision 0/3/6/12; skipped count on stderr".into(),
+        note: "14 maps of 3 samples x every target vector; 12-record call set with missing/multiallelic patterns and single records; -p vs --project-shape byte identity; precision 0/3/6/12; skipped count on stderr; three larger cohorts (30 samples in 3 populations projected to 11x11x9 = 1 089 entries, 70 in 2 to 67x63 = 4 221, 24 in one) with missing and multiallelic genotypes, every printed value compared".into(),
         exhaustive: true,
         extra: vec![],
     });
